@@ -8,9 +8,12 @@ a3) AggState::merge never discards what it has: an accumulator field of `self` i
 a2) snapshot_aggregator maps every AggregatorImpl variant to the like-named AggState (CountField -> CountAll is the one documented exception); no wildcard.
 b) AggPartial::merge visits every incoming group: insert-or-merge inside the loop over other.groups, no early exit from the loop.
 c) row-filter parity: ConditionEvaluatorBuilder::build_from_plan must add the event-type / FOR-context / SINCE conditions (add_special_fields) in aggregation mode as in selection mode.
+(d) chunked (SIMD) column folds take the values and the validity flags of a chunk at the SAME offset: in Sum/Avg::update_column_simd both operands of every lane-wise Simd operation
+depend on the same loop-carried index (a mask built from the whole validity vector, or from another offset, silently applies chunk 0's NULL pattern to every chunk - the fold then differs from the
+row-at-a-time fold whenever NULLs are not aligned with the chunking).
 """
-FLOOR = 5
-REQUIRED = ["C09.a1", "C09.a2", "C09.a3", "C09.b", "C09.c"]
+FLOOR = 6
+REQUIRED = ["C09.a1", "C09.a2", "C09.a3", "C09.b", "C09.c", "C09.d"]
 
 
 def run(ctx):
@@ -159,3 +162,54 @@ def run(ctx):
         wc = one(b, r"ConditionEvaluatorBuilder::add_where_clause$")
         return bad
     ctx.run("C09.c", "K11 SIB", "ConditionEvaluatorBuilder::build_from_plan", "aggregation and selection filter rows by the same restrictions", c)
+
+    def d_(inst):
+        bad, n = [], 0
+        for nm in ("Sum::update_column_simd", "Avg::update_column_simd"):
+            b = F.fn("aggregate::ops::" + nm)
+            # loop-carried integer locals: defined (also) from themselves
+            carried = {}
+            for l, defs in b.defs().items():
+                if b.local_ty(l) not in ("usize", "u64", "u32", "i64", "isize"):
+                    continue
+                for (bb, j, dpl, rv) in defs:
+                    if j == -1 or len(dpl) != 1 or rv.get("r") not in ("bin", "use"):
+                        continue
+                    ops = [rv["a"], rv["b"]] if rv.get("r") == "bin" else [rv["o"]]
+                    for o_ in ops:
+                        pl = o_.get("m") or o_.get("c")
+                        if not pl:
+                            continue
+                        # l = f(.., l, ..): follow the operand's own definitions (not l's) back to l
+                        back = set()
+                        for (bb2, j2, dpl2, rv2) in b.defs().get(pl[0], []):
+                            if j2 != -1 and rv2.get("r") == "bin":
+                                for o2 in (rv2["a"], rv2["b"]):
+                                    p2 = o2.get("m") or o2.get("c")
+                                    if p2:
+                                        back |= wide_all(b, p2, depth=3)
+                        if l in back or (rv.get("r") == "bin" and pl[0] == l):
+                            carried.setdefault(l, set()).add(bb)
+            lane_ops = [c_ for c_ in b.calls if not c_.cleanup and re.search(r"core_simd::ops::(.*::)?(mul|add|sub|bitand|bitor)$|simd::.*Simd.*::(mul|add|sub)$", c_.nname) and len(c_.args) == 2]
+            if not lane_ops:
+                raise AnchorMissing("lane-wise Simd operation in %s" % nm)
+            for c_ in lane_ops:
+                # index variables of the loop around this operation: loop-carried AND used as a bound of a range / slice index
+                range_locals = set()
+                for blk in b.blocks:
+                    for st in blk["s"]:
+                        v = st.get("v")
+                        if v and v.get("r") == "agg" and "ops::Range" in str(v.get("adt", "")):
+                            for o_ in v["o"]:
+                                range_locals |= wide_all(b, o_, depth=4)
+                ind = {l for l, bbs in carried.items() if l in range_locals and any(b.can_reach(x, c_.bb) and b.can_reach(c_.bb, x) for x in bbs)}
+                A = wide_all(b, c_.args[0], partial=False) & ind
+                B_ = wide_all(b, c_.args[1], partial=False) & ind
+                n += 1
+                inst.sites.append("%s @ %s: %s(chunk index %s, chunk index %s)" % (nm, sp(b, c_.bb), c_.nname.split("::")[-1], sorted(A), sorted(B_)))
+                if not A or not B_ or not (A & B_):
+                    bad.append(("chunk-offset-mismatch:%s" % nm, "%s combines lane-wise two vectors that are not taken at the same chunk offset (loop indices %s vs %s): the validity mask / values of another chunk are applied" % (nm, sorted(A), sorted(B_)), None))
+        if n < 2:
+            raise AnchorMissing("lane-wise operations (found %d, confirmed 2)" % n)
+        return bad
+    ctx.run("C09.d", "K11 SIB", "Sum/Avg::update_column_simd", "values and validity of a chunk are taken at the same offset", d_)
